@@ -1134,6 +1134,7 @@ class C18(E2EProp):
         import show
         many = show.start_many_messages(rng, tier, report)          # two minutes of wall clock, mostly waiting: runs beside the others
         show.check_table_and_stats(rng, tier, report)
+        show.check_table_far_longitudes(rng, tier, report)
         show.check_stats_expiry(rng, tier, report)
         show.check_map(rng, tier, report)
         show.check_map_sites(rng, tier, report)
